@@ -139,6 +139,7 @@ struct Ctx {
     op_hist: std::collections::BTreeMap<&'static str, u64>,
     branch: std::collections::BTreeMap<&'static str, u64>,
     hsize: usize,
+    halign: usize,
     up: bool,
     ga: bool,
     de: bool,
@@ -310,6 +311,14 @@ fn state_oracles(ctx: &mut Ctx, sc: &dyn ScopeOps, d: &Dump, optext: &str, _base
         }
         if (c.content_start - c.chunk_start) + (c.chunk_end - c.content_end) != ctx.hsize {
             ctx.oracle("C10", format!("after `{optext}`: chunk {i} header is not {} bytes inside the chunk", ctx.hsize));
+        }
+        // ---- C12: computed chunk sizes are multiples of 16, and of the header alignment when bumping downwards
+        // (the header sits at the end of the block: it must be aligned); a later chunk is at least twice its predecessor less 16
+        if c.size % 16 != 0 || (!ctx.up && ctx.halign > 0 && (c.size % ctx.halign != 0 || c.content_end % ctx.halign != 0)) {
+            ctx.oracle("C12", format!("after `{optext}`: chunk {i} has size {} (block {:#x}): not a multiple of 16 / of the header alignment {} (downwards: header at {:#x})", c.size, c.chunk_start, ctx.halign, c.content_end));
+        }
+        if i > 0 && c.size + 16 < 2 * d.fwd[i - 1].size {
+            ctx.oracle("C12", format!("after `{optext}`: chunk {i} (size {}) is smaller than twice its predecessor ({}) less 16", c.size, d.fwd[i - 1].size));
         }
         if i > 0 && d.fwd[i - 1].size >= c.size {
             ctx.oracle("C10", format!("after `{optext}`: chunk {i} (size {}) is not larger than its predecessor ({})", c.size, d.fwd[i - 1].size));
